@@ -3,7 +3,8 @@
 From Verif Require Export Dsl.
 Local Open Scope nat_scope.
 
-Record Case := { c_tree : JV; c_expect : option YField; c_impl_ok : bool; c_model : bool; c_check_print : bool }.
+Record Case := { c_tree : JV; c_expect : option YField; c_impl_ok : bool; c_model : bool; c_check_print : bool;
+                 c_foreign : option YField (* a field object handed to from_value: accepted iff valid at every depth *) }.
 
 Definition unit_eqb' (a c : TimeUnit) : bool :=
   match a, c with Second, Second | Millisecond, Millisecond | Microsecond, Microsecond | Nanosecond, Nanosecond => true | _, _ => false end.
@@ -60,6 +61,7 @@ Definition corr (c : Case) : bool :=
 
 (* the model's own round trip on the expected field, and the printer against the implementation's tree *)
 Definition oracle (c : Case) : bool :=
+  match c_foreign c with Some f => Bool.eqb (c_impl_ok c) (valid_y f) | None => true end &&
   if c_check_print c then
     match c_expect c with
     | Some e => jv_equiv (print_field e) (c_tree c)
